@@ -35,9 +35,17 @@ func sections(args []core.Value, count int) (core.Value, error) {
 		}
 
 		arr := i.(*values.Array)
+		// a value counts once per array, however often it occurs in it
+		seen := make(map[uint64]bool)
 
 		arr.ForEach(func(value core.Value, idx int) bool {
 			h := value.Hash()
+
+			if seen[h] {
+				return true
+			}
+
+			seen[h] = true
 
 			bucket, exists := intersections[h]
 
